@@ -174,6 +174,13 @@ def run_compose_schema(ctx, schema, cases, optsets):
                     except Exception as ex:  # noqa: BLE001
                         ctx.violation(f"output is not well-formed: {ex}", {**dinfo, "out": out})
                         continue
+                    if schema.get("mixed"):
+                        # a mixed type: the whole content sequence (text pieces and elements) in document order
+                        mi, mo = cb.canon_mixed(infoset.parse(xml)), cb.canon_mixed(infoset.parse(out))
+                        if mi != mo:
+                            ctx.violation(f"mixed content differs between input and output ({oname}): {mo[2]} vs {mi[2]}", {**dinfo, "out": out})
+                        results.setdefault(xml, {})[oname] = mo
+                        continue
                     bag_i, bag_o = sorted(map(repr, ci[3])), sorted(map(repr, co[3]))
                     if ci[:3] != co[:3] or bag_i != bag_o:
                         ctx.violation(f"elements / attributes / values (incl. xsi:type) differ between input and output ({oname}): "
